@@ -1246,11 +1246,17 @@ class SymArray:
         for i in range(self.shape[0]):
             yield self[i]
 
-    def max(self):
-        return s_max(self.cells_list())
+    def max(self, initial=None):
+        vals = self.cells_list() + ([initial] if initial is not None else [])
+        if not vals:
+            raise ValueError("zero-size array to reduction operation maximum which has no identity")
+        return s_max(vals) if len(vals) > 1 else vals[0]
 
-    def min(self):
-        return s_min(self.cells_list())
+    def min(self, initial=None):
+        vals = self.cells_list() + ([initial] if initial is not None else [])
+        if not vals:
+            raise ValueError("zero-size array to reduction operation minimum which has no identity")
+        return s_min(vals) if len(vals) > 1 else vals[0]
 
     def sum(self):
         return s_sum(self.cells_list())
